@@ -21,6 +21,8 @@ def flatten_members(env, sch, ct):
         for q in p.items:
             if isinstance(q, (Seq, Choice)):
                 walk(q, enc + [(q.min, q.max, isinstance(q, Choice))])
+            elif isinstance(q, Note):
+                continue
             elif isinstance(q, Any):
                 out.append(dict(kind='any'))
             else:
@@ -34,7 +36,6 @@ def flatten_members(env, sch, ct):
 
 def _occ_kind(env, mem):
     el = mem['el']
-    encs = mem['enc'][1:] if mem['enc'] else []     # enc[0] is the synthetic root wrapper
 
     def f(mn, mx, *rest):
         pmn = pmx = None
@@ -48,8 +49,8 @@ def _occ_kind(env, mem):
             in_choice = in_choice or c
         return occurs(mn, mx, pmn, pmx, in_choice)
     args = [el.min, el.max]
-    # the content particle itself (ct.content) is enc[1]; its own occurrence applies as well
-    for (a, b, c) in mem['enc'][1:]:
+    # every enclosing particle counts, the content particle itself (ct.content, enc[0]) included: its occurrence and whether it is a choice
+    for (a, b, c) in mem['enc']:
         args += [a, b, c]
     return env.map(f, *args)
 
@@ -138,7 +139,8 @@ def check_struct_members(env, items, sch, ct, struct_name, mod_of_prefix, base_f
     name = env.map(pascal, struct_name)
     cands = find_structs(items, name, env.allowed, module)
     n = len(cands)
-    out.append(Check('struct-exactly-once', 'exactly one struct for %s%s (found %d)' % (one(struct_name), tag, n), n == 1))
+    out.append(Check('struct-exactly-once', 'exactly one struct for %s%s (found %d)' % (one(struct_name), tag, n), n == 1,
+                     cls=(lambda p, nm=one(struct_name), n=n: '%s found=%d' % (nm, n))))
     if n != 1:
         return out
     st = cands[0]
